@@ -322,7 +322,67 @@ func init() {
 		return "rt=ok"
 	})
 
+	// frtmeta2 <bad>: ONE framer with ReadMetaHeaders reads (1) a header block containing an HTTP-invalid field (class <bad>:
+	// U upper-case name, V control octet in a value, P pseudo-header after a regular field), optionally cut short in the
+	// middle of its last field (t), then (2) a valid block that the writer's encoder opens with a dynamic table size update.
+	// RFC 7540: (1) complete -> stream error PROTOCOL_ERROR, (1) truncated -> connection error COMPRESSION_ERROR (4.3);
+	// (2) must then read back as written: the decoder finished with block (1).
+	registerOp("frtmeta2", func(a []string) string {
+		var hb bytes.Buffer
+		enc := xhpack.NewEncoder(&hb)
+		enc.WriteField(xhpack.HeaderField{Name: ":method", Value: "GET"})
+		enc.WriteField(xhpack.HeaderField{Name: ":scheme", Value: "https"})
+		enc.WriteField(xhpack.HeaderField{Name: ":path", Value: "/"})
+		switch a[0][0] {
+		case 'U':
+			enc.WriteField(xhpack.HeaderField{Name: "Bad-Name", Value: "v"})
+		case 'V':
+			enc.WriteField(xhpack.HeaderField{Name: "x-bad", Value: "a\x00b"})
+		default:
+			enc.WriteField(xhpack.HeaderField{Name: "x-regular", Value: "v"})
+			enc.WriteField(xhpack.HeaderField{Name: ":authority", Value: "late.example"})
+		}
+		enc.WriteField(xhpack.HeaderField{Name: "x-last-field", Value: "some-longer-value-0123456789"})
+		block1 := append([]byte{}, hb.Bytes()...)
+		truncated := strings.HasSuffix(a[0], "t")
+		if truncated {
+			block1 = block1[:len(block1)-5]
+		}
+		hb.Reset()
+		enc.SetMaxDynamicTableSize(1024)
+		enc.WriteField(xhpack.HeaderField{Name: ":method", Value: "GET"})
+		enc.WriteField(xhpack.HeaderField{Name: ":scheme", Value: "https"})
+		enc.WriteField(xhpack.HeaderField{Name: ":path", Value: "/second"})
+		block2 := append([]byte{}, hb.Bytes()...)
+		var buf bytes.Buffer
+		fr := http2.NewFramer(&buf, &buf)
+		fr.WriteHeaders(http2.HeadersFrameParam{StreamID: 1, BlockFragment: block1, EndHeaders: true, EndStream: true})
+		fr.WriteHeaders(http2.HeadersFrameParam{StreamID: 3, BlockFragment: block2, EndHeaders: true, EndStream: true})
+		fr.ReadMetaHeaders = xhpack.NewDecoder(4096, nil)
+		var out []string
+		for i := 0; i < 2; i++ {
+			f, err := fr.ReadFrame()
+			if err != nil {
+				out = append(out, readErrStr(err))
+				if _, ok := err.(http2.StreamError); !ok {
+					break // a connection error ends the connection
+				}
+				continue
+			}
+			if mh, ok := f.(*http2.MetaHeadersFrame); ok {
+				out = append(out, fmt.Sprintf("meta:%d:%d", mh.StreamID, len(mh.Fields)))
+			} else {
+				out = append(out, "other")
+			}
+		}
+		return strings.Join(out, " ")
+	})
+
 	register("frame", "C19: Write* parameters (boundaries), read-back oracle, reader on written / mutated / random bytes with read limits", func(c *ctx) {
+		for _, bad := range []string{"U", "V", "P", "Ut", "Vt", "Pt"} {
+			c.tag("meta:invalid-field-then-size-update")
+			c.op("frtmeta2 " + bad)
+		}
 		sids := []uint32{0, 1, 2, 3, 1<<31 - 1, 1 << 31, 1<<32 - 1, 77}
 		// reserved-bit / zero / maximum boundaries of every 32-bit field of the fixed-layout frames
 		for _, v := range []uint32{0, 1, 1<<31 - 1, 1 << 31, 1<<31 + 1, 1<<32 - 1} {
